@@ -224,7 +224,7 @@ func c15Record(col *collector, c c15Case) {
 
 func TestC15Exhaustive(t *testing.T) {
 	col := coll("C15", "exhaustive")
-	maxN := pick(4, 6)
+	maxN := pick(4, 7)
 	col.Rule = fmt.Sprintf("all forests <=%d nodes over {a,b} x all 15 pairs of the 6-spelling panel x rotating operation (text, noiter, json, yaml, toml, dryrun, walk; mkdir/verify every 8th)", maxN)
 	i, rot := 0, 0
 	model.EnumForests(maxN, []string{"a", "b"}, func(f model.Forest) {
